@@ -334,7 +334,7 @@ func (g *QGen) Atom() *Q {
 		return scope(&Q{T: "regex", Pat: g.RegexFor(fromName)})
 	case x < 20:
 		if rng.Intn(2) == 0 || g.NoRegex {
-			return &Q{T: "symbol", Sub: []*Q{{T: "substr", Pat: g.C.PickPattern(rng, false), CT: true, CS: rng.Intn(2) == 0}}}
+			return &Q{T: "symbol", Sub: []*Q{{T: "substr", Pat: g.C.PickSymbolPattern(rng), CT: true, CS: rng.Intn(2) == 0}}}
 		}
 		pat := []string{".*", quoteLit(g.C.PickPattern(rng, false)), "^" + quoteLit(g.C.PickPattern(rng, false)), quoteLit(g.C.PickPattern(rng, false)) + "$", "a.", "[ab]c"}[rng.Intn(6)]
 		return &Q{T: "symbol", Sub: []*Q{{T: "regex", Pat: pat, CT: true, CS: rng.Intn(2) == 0}}}
